@@ -137,11 +137,14 @@ def rule_release(ctx: Ctx) -> None:
     ub = ctx.func(f"{OM}._update_balances")
     src = ast.unparse(ub.node)
     oh = [s for s in A.stores(ub) if isinstance(s.target, ast.Name) and s.target.id == "order_holds"]
-    ctx.check(bool(oh) and ast.unparse(oh[0].node.value) == "self._holds_by_order.get(order.id, ValueMap())", "C06.2",
+    ctx.check(bool(oh) and ast.unparse(oh[0].node.value) in ("self._holds_by_order.get(order.id, ValueMap())", "self._holds_by_order.get(order.id)"), "C06.2",
               "the holds considered are the order's own record", ub, oh[0].stmt if oh else ub.node, "self._holds_by_order.get(order.id, ...)",
               "the record looked up is not the order's own")
     from .. import norm as N
-    call = [c for c in A.func_calls(ub) if (A.call_name(c) or "").endswith("account_balances.update")]
+    calls_all = [c for c in A.func_calls(ub) if (A.call_name(c) or "").endswith("account_balances.update")]
+    # an update that passes a literal empty release (the order has nothing on hold) is not the releasing call
+    nohold = [c for c in calls_all if A.kw(c, "hold_updates") is None or ast.unparse(A.kw(c, "hold_updates")) in ("{}", "dict()", "None")]
+    call = [c for c in calls_all if c not in nohold]
     ctx.require(len(call) == 1, "C06.2: _update_balances lost its ledger update")
     hname = A.dotted(A.kw(call[0], "hold_updates"))
     ctx.check(hname is not None and "." not in hname and A.dotted(A.kw(call[0], "balance_updates")) == ub.params[2], "C06.2",
@@ -215,6 +218,10 @@ def rule_release(ctx: Ctx) -> None:
     ctx.check(oko, "C06.2", "an open order releases what it spent, never more than is held", ub, opened[0].stmt if opened else ub.node,
               "max(amount, -held) for debited symbols that are on hold", "the release for a partial fill is not bounded by what is held "
               "(or releases for symbols that were not debited)", key_text="open release")
+    for c_ in nohold:
+        cn_ = g.nodes_for(c_)[0]
+        ctx.check(cn_ not in reach_skipping({"empty"}), "C06.2", "an update without a release happens only when the order has nothing on hold", ub, c_,
+                  "reached only through the 'no holds' edge", "the account is updated without releasing although the order may have funds on hold")
     others = [s for s in A.stores(ub) if isinstance(s.target, ast.Name) and s.target.id in group and s.node not in [c_.node for c_ in closed + opened]
               and not (isinstance(s.node, (ast.Assign, ast.AnnAssign)) and (isinstance(s.node.value, ast.Name) or ast.unparse(s.node.value) in ("{}", "None", "dict()")))]
     ctx.check(not others, "C06.2", "the release has no other source", ub, others[0].stmt if others else ub.node, "only {}, the closed form and the open form",
